@@ -1,38 +1,52 @@
 #!/venv/bin/python
-"""usage: register_survey.py <survey log>...  -- adds function-level known findings for C18..C23 accuracy buckets"""
+"""usage: register_survey.py <survey log>...  -- (re)builds the survey-derived known findings of C18..C23.
+
+Lines: "<prop> seed<n> <bucket> ||| <message>".  Rule: per (kind, function, real|cplx) -- if the observed failures
+span two or more (precision band, argument class) combinations the finding covers `kind:function:type:`; a single
+combination is registered as that exact bucket, so that a different failure of the same function is still reported."""
 import json, re, collections, sys
 d = json.load(open('/verif/known_findings.json'))
-have = set(x['id'] for x in d['findings'])
-by = collections.defaultdict(list)
+d['findings'] = [x for x in d['findings'] if not x.get('survey')]
+by = collections.defaultdict(lambda: collections.defaultdict(list))
+exc = collections.defaultdict(list)
 for fn in sys.argv[1:]:
     for l in open(fn):
-        m = re.match(r'(C\d\d) seed\d+ (acc|gross|exception):([^: ]+)[^|]*\|\|\| (.*)', l)
+        m = re.match(r'(C\d\d) seed\d+ (\S+) \|\|\| (.*)', l)
         if not m:
             continue
-        prop, kind, name, msg = m.groups()
-        bucket = l.split()[2]
-        if kind == 'acc' and bucket.endswith(':gross'):
-            bucket = bucket[:-6]
-        if kind == 'acc' and (l.split()[2].endswith(':gross') or bucket.startswith('gross:')):
-            kind, name = 'gross', bucket.split(':', 1)[1]
-        by[(prop, kind, name)].append(msg.strip())
+        prop, bucket, msg = m.groups()
+        parts = bucket.split(':')
+        if parts[0] == 'exception':
+            exc[(prop, bucket)].append(msg.strip())
+            continue
+        if parts[0] not in ('acc', 'gross'):
+            continue
+        if parts[-1] == 'gross':
+            parts = ['gross'] + parts[1:-1]
+        kind, name, ty = parts[0], parts[1], parts[2]
+        by[(prop, kind, name, ty)][':'.join(parts[3:])].append(msg.strip())
 new = 0
-for (prop, kind, name), msgs in sorted(by.items()):
-    if kind == 'exception':
-        fid = '%s-exc-%s' % (prop, name.replace('@', '-'))
-        e = {'id': fid, 'property': prop, 'status': 'known', 'bucket_prefix': 'exception:' + name, 'scope': 'bucket',
-             'what': "undocumented exception escaping from a special function: " + msgs[0][:200]}
-    elif kind == 'gross':
-        fid = '%s-gross-%s' % (prop, name.replace(':', '-'))
-        e = {'id': fid, 'property': prop, 'status': 'known', 'bucket': 'gross:' + name, 'scope': 'bucket',
-             'what': "%s: result has (almost) no correct bits in this argument class (multi-seed survey, %d case(s)); first: %s" % (name.split(':')[0], len(msgs), msgs[0][:260])}
+for (prop, bucket), msgs in sorted(exc.items()):
+    d['findings'].append({'id': '%s-exc-%s' % (prop, bucket.split(':', 1)[1].replace('@', '-').replace(':', '-')), 'property': prop,
+                          'status': 'known', 'bucket_prefix': bucket, 'scope': 'bucket', 'survey': True,
+                          'what': "undocumented exception escaping from a special function: " + msgs[0][:200]})
+    new += 1
+for (prop, kind, name, ty), classes in sorted(by.items()):
+    n = sum(len(v) for v in classes.values())
+    first = sorted(classes.items())[0][1][0]
+    desc = ("%s (%s arguments): result has (almost) no correct bits" if kind == 'gross' else
+            "%s (%s arguments) misses the 2^(8-p) relative accuracy bound") % (name, 'complex' if ty == 'cplx' else 'real')
+    e = {'property': prop, 'status': 'known', 'scope': 'bucket', 'survey': True}
+    if len(classes) >= 2:
+        e['id'] = '%s-%s-%s-%s' % (prop, kind, name, ty)
+        e['bucket_prefix'] = '%s:%s:%s:' % (kind, name, ty)
+        e['what'] = "%s in several argument classes (%s; multi-seed survey, %d cases); e.g. %s" % (desc, ', '.join(sorted(classes)), n, first[:240])
     else:
-        fid = '%s-acc-%s' % (prop, name)
-        e = {'id': fid, 'property': prop, 'status': 'known', 'bucket_prefix': 'acc:%s:' % name, 'scope': 'bucket',
-             'what': "%s misses the 2^(8-p) relative accuracy bound for some generated arguments (multi-seed survey, %d case(s)); first: %s" % (name, len(msgs), msgs[0][:260])}
-    if fid not in have:
-        d['findings'].append(e)
-        new += 1
-        print("new:", fid)
+        cls = list(classes)[0]
+        e['id'] = '%s-%s-%s-%s-%s' % (prop, kind, name, ty, cls.replace(':', '-'))
+        e['bucket'] = '%s:%s:%s:%s' % (kind, name, ty, cls)
+        e['what'] = "%s in argument class %s (multi-seed survey, %d case(s)); e.g. %s" % (desc, cls, n, first[:240])
+    d['findings'].append(e)
+    new += 1
 json.dump(d, open('/verif/known_findings.json', 'w'), indent=1)
-print(new, "new entries")
+print(new, "survey entries")
